@@ -47,6 +47,82 @@ def writes_are(p, want):
     return None
 
 
+UNBOUNDED_SCANNERS = ("string_length", "strlen", "length", "rawmemchr")
+
+
+def check_array_scans_bounded(chk, lib):
+    """ARR.bounded: fixed-length arrays need not contain a NUL, so no operation of an array reference may scan *its own
+    storage* with an unbounded scanner (strlen-like functions) - in any arm, including the `is_constant_evaluated()` arms
+    the E2 rows do not follow (they analyse the run-time arm).  C-string arguments (`const char* str`) may be measured
+    that way: that is their contract."""
+    n = 0
+    for tpl in ("sbepp::detail::static_array_ref", "sbepp::detail::dynamic_array_ref"):
+        seen = set()
+        for (c, name), fs in lib.by_name.items():
+            if c != tpl:
+                continue
+            for f in fs[:1]:
+                if f.get("body") is None or (name, f.get("line")) in seen:
+                    continue
+                seen.add((name, f.get("line")))
+                for x in walk(f["body"]):
+                    cal = x.get("callee") or {}
+                    if x.get("k") not in ("CallExpr", "CXXMemberCallExpr") or cal.get("name") not in UNBOUNDED_SCANNERS:
+                        continue
+                    if cal.get("name") == "length" and "char_traits" not in (cal.get("base") or cal.get("cls") or ""):
+                        continue
+                    n += 1
+                    own = False
+                    for a in x.get("args") or []:
+                        for y in walk(a):
+                            if (y.get("callee") or {}).get("name") in ("data", "begin", "data_checked", "data_unchecked", "cbegin") or y.get("k") == "CXXThisExpr":
+                                own = True
+                    key = "%s.%s|%s" % (tpl.split("::")[-1], name, cal.get("name"))
+                    if own:
+                        chk.violation("ARR.bounded", key, where(f),
+                                      "%s::%s measures the array's own storage with %s(...), an unbounded scan: an array without a NUL "
+                                      "makes it read past the last element (in constant evaluation: a wrong length or no constant "
+                                      "expression at all)" % (tpl.split("::")[-1], name, cal.get("base") or cal.get("name")))
+                    else:
+                        chk.ok("ARR.bounded", key + "#%s" % x.get("l"), {"function": name, "scanner": cal.get("name"), "argument": "caller's C string"})
+    # a sized argument (string_view, span, container: anything with data() and size()) must not be reduced to its data()
+    # pointer: the callee then has to guess the length (a C-string scan reads past a view that is not NUL-terminated at
+    # size(), and stops early at an embedded NUL)
+    m = 0
+    for f in lib.facts["functions"]:
+        if not f.get("file", "").endswith("sbepp.hpp") or f.get("body") is None:
+            continue
+        owner = f.get("cls_tpl") or f.get("cls") or ""
+        if "static_array_ref" not in owner and "dynamic_array_ref" not in owner:
+            continue
+        params = {p_.get("name"): (p_.get("t") or "") for p_ in f.get("params") or [] if p_.get("name")}
+        used = {}
+        for x in walk(f["body"]):
+            cal = x.get("callee") or {}
+            nm = cal.get("name") or x.get("member")
+            obj = x.get("obj") if x.get("obj") is not None else x.get("base")
+            if nm in ("data", "size", "length", "end", "cend", "begin") and isinstance(obj, dict):
+                o = obj
+                while o is not None and o.get("k") in ("ImplicitCastExpr", "ParenExpr", "MemberExpr") and o.get("k") != "DeclRefExpr":
+                    o = o.get("sub") or o.get("base")
+                    if o is None:
+                        break
+                if o is not None and o.get("k") == "DeclRefExpr" and o.get("dk") == "ParmVar" and o.get("name") in params:
+                    used.setdefault(o["name"], set()).add(nm)
+        for pn, ms in used.items():
+            if "data" in ms and "const char *" not in params[pn]:
+                m += 1
+                key = "%s|%s" % ((f.get("base") or f.get("qn") or "")[:90], pn)
+                if not (ms & {"size", "length", "end", "cend"}):
+                    chk.violation("ARR.bounded", "sized-argument:" + key.split("<")[0] + ":" + f["name"], where(f),
+                                  "%s takes the sized argument `%s` (%s) and uses only its data() pointer: its length is dropped and "
+                                  "re-measured by the callee" % ((f.get("qn") or "")[:120], pn, params[pn][:60]))
+                else:
+                    chk.ok("ARR.bounded", "sized-argument:" + key, {"uses": sorted(ms)})
+    chk.ok("ARR.bounded", "scanned", {"unbounded scanner calls in array references": n, "sized arguments reduced to data()": m}, nontrivial=True)
+    return n
+
+
 def check_string_length(chk, lib):
     """the constant-evaluation arm of detail::string_length (a hand-written strlen; the run-time arm calls std::strlen):
     count characters up to, not including, the first NUL"""
